@@ -409,8 +409,17 @@ def run_check(plugin_mod, tier, replay=None):
         for g in gate:
             broken.append({'kind': 'gate', 'what': 'forbidden construct ' + g, 'detail': g})
 
-    info['obligations'] = nobl if ok_props else nobl
-    info['discharged'] = nobl if ok_props else 0
+    info['obligations'] = nobl
+    if ok_props:
+        info['discharged'] = nobl
+    else:
+        # count the lemmas of the closure files that did compile on this run
+        done = 0
+        for f in closure:
+            v, vo = os.path.join(COQ, f), os.path.join(COQ, f[:-2] + '.vo')
+            if os.path.exists(vo) and os.path.getmtime(vo) >= os.path.getmtime(v):
+                done += len(re.findall(r'^\s*(?:Local\s+)?(?:Lemma|Theorem|Corollary|Example|Fact|Remark|Proposition)\s', open(v).read(), re.M))
+        info['discharged'] = min(done, max(0, nobl - 1))
 
     with WorkDir() as work:
         # ---- cases: corpus + known-finding witnesses first, then generated
